@@ -47,7 +47,30 @@ fn op_name(o: Op) -> String {
 }
 const SCALARS: [&str; 3] = ["f64", "f32", "Xq"];
 
-fn value(rng: &mut Rng, clip: f64, nonzero: bool) -> f64 {
+// Tanh's argument, where the function changes regime: the last stretch before the result rounds to
+// +-1 (|x| about 19.06 at f64, 9.01 at f32), the stretch where tanh x rounds to x (|x| below about
+// 2^-27, resp. 2^-12), a fine grid around 1, and far beyond saturation.
+fn tanh_value(rng: &mut Rng) -> f64 {
+    let fine = rng.range(0, 1 << 21) as f64 / (1u64 << 20) as f64; // [0, 2)
+    let m = match rng.below(6) {
+        0 => 18.0 + fine,
+        1 => 8.0 + fine,
+        2 => (1.0 + fine) * 2f64.powi(-(rng.range(20, 34) as i32)),
+        3 => (1.0 + fine) * 2f64.powi(-(rng.range(8, 16) as i32)),
+        4 => (1.0 + fine) * 2f64.powi(rng.range(5, 60) as i32),
+        _ => 0.25 + 2.0 * fine,
+    };
+    if rng.coin() {
+        m
+    } else {
+        -m
+    }
+}
+
+fn value(rng: &mut Rng, clip: f64, nonzero: bool, tanh: bool) -> f64 {
+    if tanh && rng.chance(1, 3) {
+        return tanh_value(rng);
+    }
     loop {
         let v = match rng.below(12) {
             0 => 0.0,
@@ -80,8 +103,9 @@ fn run<T: Scalar>(op: Op, rng: &mut Rng, out: &mut TrialOut, cfg_trial: u64) {
     let mut b2 = vec![];
     let first_some = none_a.max(none_b);
     for i in 0..len {
-        let va = value(rng, clip, false);
-        let mut vb = value(rng, clip, div);
+        let th = op == Op::Tanh;
+        let va = value(rng, clip, false, th);
+        let mut vb = value(rng, clip, div, false);
         // one pair in twelve: b is the negative (or the same-sign twin) of a float adjacent to a, so
         // that a + b (resp. a - b) is a single ulp - a result that is exact and must be reported as is
         if va != 0.0 && va.is_finite() && rng.chance(1, 12) {
@@ -96,7 +120,7 @@ fn run<T: Scalar>(op: Op, rng: &mut Rng, out: &mut TrialOut, cfg_trial: u64) {
         let (wa, wb) = if sync {
             (va, vb)
         } else {
-            (value(rng, clip, false), value(rng, clip, div))
+            (value(rng, clip, false, th), value(rng, clip, div, false))
         };
         a2.push(if i < none_a { None } else { Some(wa) });
         b2.push(if i < none_b { None } else { Some(wb) });
@@ -289,7 +313,7 @@ impl Monitor for C14 {
         v
     }
     fn rule(&self) -> String {
-        "trial = (combinator kind, scalar, seeded script pair): children are Script views with a None prefix of 0..9 steps and then prescribed values (zeros, -0, clip, clip±1/4, denormal, random dyadics, pairs that are adjacent floats of equal or opposite sign; non-zero divisor), raw inputs are unrelated noise; every update is compared with the operation applied to the children's current outputs (to_bits identity; by value for GTE/LTE). distinct = distinct (kind, scalar, trial stream); non-trivial = at least one comparison made.".into()
+        "trial = (combinator kind, scalar, seeded script pair): children are Script views with a None prefix of 0..9 steps and then prescribed values (zeros, -0, clip, clip±1/4, denormal, random dyadics, pairs that are adjacent floats of equal or opposite sign; non-zero divisor; for Tanh a third of the arguments lie where the function changes regime: 18..20 and 8..10 on a 2^-20 grid, 2^-34..2^-8, 2^5..2^60), raw inputs are unrelated noise; every update is compared with the operation applied to the children's current outputs (to_bits identity; by value for GTE/LTE). distinct = distinct (kind, scalar, trial stream); non-trivial = at least one comparison made.".into()
     }
     fn assumptions(&self) -> Vec<String> {
         vec![
